@@ -269,11 +269,13 @@ impl<'a> Ctx<'a> {
                 ranges.push((off, off + 32));
             }
         }
-        if dl == 1 {
-            v.extend_from_slice(&self.random_scalar(99));
-        } else if dl == -1 {
+        // dl whole scalars appended (dl > 0) or removed from the end (dl < 0)
+        for k in 0..dl.max(0) {
+            v.extend_from_slice(&self.random_scalar(99 + k as u64));
+        }
+        if dl < 0 {
             let n = v.len();
-            v.truncate(n - 32);
+            v.truncate(n.saturating_sub(32 * (-dl) as usize));
         }
         (v, ranges)
     }
